@@ -192,6 +192,8 @@ func (s *addrStream) Gen(r *tr.Rng) *tr.Op {
 		s.known = map[string]bool{} // the decode oracle is per network: always restate
 		s.oracle("decode", "in", tr.Hex([]byte(str)), "out", out)
 		s.push(tr.NewOp(cls, "addr.decode", "net", net, "str", tr.Hex([]byte(str))))
+	case c < 92:
+		s.push(lockParamsOp(r))
 	default: // genesis validation of the bridge parameters on a boundary grid
 		g := []uint64{0, 1, 999, 1000, 1001, 9999, 10000, 10001, 100000000, 100000001, 1<<64 - 1}
 		net := tr.Pick(r, "regtest", "regtest", "mainnet", "nonet")
@@ -203,4 +205,40 @@ func (s *addrStream) Gen(r *tr.Rng) *tr.Op {
 			"magic", tr.Hex(magic), "rate", g[r.Intn(len(g))], "max", g[r.Intn(len(g))]))
 	}
 	return s.pop()
+}
+
+// lockParamsOp: genesis validation of the locking parameters — every bound at, below and above its limit
+func lockParamsOp(r *tr.Rng) *tr.Op {
+	one := int64(1e18)
+	p := map[string]any{"unlock": int64(604800e9), "exit": int64(1814400e9), "jail": int64(10800e9), "maxvals": int64(21), "window": int64(1200),
+		"maxmissed": int64(200), "slashds": int64(5e16), "slashdt": int64(2e16), "halving": int64(42048000), "reward": int64(2378234400000000000)}
+	cls := "lockparams/valid"
+	for k := r.Intn(3); k > 0; k-- { // up to two fields off their defaults
+		switch r.Intn(11) {
+		case 0:
+			p["maxvals"], cls = tr.Pick(r, int64(0), 1, 100, 101, -1), cls+"/maxvals"
+		case 1:
+			p["maxmissed"], cls = tr.Pick(r, int64(0), 1, 1199, 1200, 1201, -1), cls+"/maxmissed"
+		case 2:
+			p["window"], cls = tr.Pick(r, int64(0), 1, 200, 201, -5), cls+"/window"
+		case 3:
+			p["slashds"], cls = tr.Pick(r, int64(0), 1, one-1, one, one+1, -1, -one/2), cls+"/slashds"
+		case 4:
+			p["slashdt"], cls = tr.Pick(r, int64(0), 1, one-1, one, one+1, -1, -one/2), cls+"/slashdt"
+		case 5:
+			p["jail"], cls = tr.Pick(r, int64(0), 60e9-1, 60e9, 60e9+1, -1), cls+"/jail"
+		case 6:
+			p["exit"], cls = tr.Pick(r, int64(604800e9-1), 604800e9, 604800e9+1, 0), cls+"/exit"
+		case 7:
+			p["unlock"], cls = tr.Pick(r, int64(1814400e9-1), 1814400e9, 1814400e9+1, 0, -1), cls+"/unlock"
+		case 8:
+			p["reward"], cls = tr.Pick(r, int64(0), 1, 2, -1), cls+"/reward"
+		case 9:
+			p["halving"], cls = tr.Pick(r, int64(0), 1, 2, -1), cls+"/halving"
+		case 10: // both fractions negative / one of each sign
+			p["slashds"], p["slashdt"], cls = tr.Pick(r, -one/2, -1, int64(5e16)), tr.Pick(r, -one/2, -1, int64(2e16)), cls+"/fractions-signs"
+		}
+	}
+	return tr.NewOp(cls, "lock.validateparams", "unlock", p["unlock"], "exit", p["exit"], "jail", p["jail"], "maxvals", p["maxvals"], "window", p["window"],
+		"maxmissed", p["maxmissed"], "slashds", p["slashds"], "slashdt", p["slashdt"], "halving", p["halving"], "reward", p["reward"])
 }
